@@ -152,6 +152,12 @@ func classify(mail bool, arg string, f Flags, trimmed bool) Result {
 				v.inv("parameter with a second '=': " + tok)
 				continue
 			}
+			if !esmtpParamShape(key, val, hasVal) {
+				// Outside the generic esmtp-param grammar (RFC 5321 4.1.2):
+				// whatever else is wrong with it, a syntax error (501) is as
+				// good an answer as "not implemented" (504).
+				v.unsp("parameter outside the esmtp-param grammar: " + tok)
+			}
 			if mail {
 				classifyMailParam(uk, val, hasVal, f, &v, &res.Mail)
 			} else {
@@ -160,6 +166,31 @@ func classify(mail bool, arg string, f Flags, trimmed bool) Result {
 		}
 	}
 	return finish(res, v)
+}
+
+// esmtpParamShape: esmtp-keyword = (ALPHA / DIGIT) *(ALPHA / DIGIT / "-"),
+// esmtp-value = 1*(%d33-60 / %d62-126) (octets >= 0x80 admitted: RFC 6531).
+func esmtpParamShape(key, val string, hasVal bool) bool {
+	if key == "" || !isLetDig(key[0]) {
+		return false
+	}
+	for i := 1; i < len(key); i++ {
+		if !isLetDig(key[i]) && key[i] != '-' {
+			return false
+		}
+	}
+	if !hasVal {
+		return true
+	}
+	if val == "" {
+		return false
+	}
+	for i := 0; i < len(val); i++ {
+		if b := val[i]; b <= 32 || b == 127 || b == '=' {
+			return false
+		}
+	}
+	return true
 }
 
 func finish(res Result, v verdicts) Result {
